@@ -226,6 +226,7 @@ func (w *hWorld) defragRun(ctx *MetadataDefragContext[hAlloc], tag string, maxPa
 		verifAssume(maxAllocs >= 1)
 		verifAssume(maxAllocs <= 8)
 	}
+	var ignored []*hAlloc // sources whose move was ignored earlier in this run
 	for p := 0; p < maxPasses; p++ {
 		pass := PassContext{MaxPassBytes: maxBytes, MaxPassAllocations: maxAllocs}
 		panicked := verifCatch(func() { ctx.BlockListCollectMoves(&pass) })
@@ -287,6 +288,18 @@ func (w *hWorld) defragRun(ctx *MetadataDefragContext[hAlloc], tag string, maxPa
 		}
 		w.invariants("C07"+tag+"/source-and-destination-reserved-between-collect-and-complete", temps, verifTier() == 1)
 		verifAssert("C15"+tag+"/every-move-goes-to-an-earlier-block-or-lower-offset", fwd)
+		// termination measure: copies strictly decrease (block, offset), destroys decrease the allocation count, and an
+		// allocation whose move was ignored must never be proposed again in this run (otherwise a caller that keeps
+		// answering "ignore" is handed the same move forever)
+		again := false
+		for i := range moves {
+			for _, ig := range ignored {
+				if moves[i].SrcAllocation == ig {
+					again = true
+				}
+			}
+		}
+		verifAssert("C15"+tag+"/an-ignored-move-is-not-proposed-again", !again)
 		verifAssert("C15"+tag+"/pass-byte-limit-respected", sumBytes <= maxBytes)
 		verifAssert("C15"+tag+"/pass-allocation-limit-respected", len(moves) <= maxAllocs)
 		verifAssert("C07"+tag+"/block-list-lock-balanced", verifAnd(!w.list.lockErr, w.list.lockDepth == 0))
@@ -318,6 +331,9 @@ func (w *hWorld) defragRun(ctx *MetadataDefragContext[hAlloc], tag string, maxPa
 		srcs := make([]*hAlloc, len(moves))
 		for i := range moves {
 			srcs[i] = moves[i].SrcAllocation
+			if ops[i] == DefragmentationMoveIgnore {
+				ignored = append(ignored, srcs[i])
+			}
 		}
 		var err error
 		panicked = verifCatch(func() { err = ctx.BlockListCompletePass(&pass) })
